@@ -451,9 +451,179 @@ def register(R: Registry):
             2: dict(invariant=INV2, modifies=["G"]),
         },
         returns="oref",
-        options=dict(ghost_after=GHOST, hints=hints, asserts_after=ANNOT, modular=True),
+        options=dict(ghost_after=GHOST, hints=hints, asserts_after=ANNOT, modular=True, truth_hook=lambda E, x: truth_of_callback_values(E, x)),
         notes="callbacks are arbitrary (uninterpreted results, recorded by ghost observation arrays); termination of the stack loop is not proved",
     )
+
+
+# =========================================================================== the same function on EVERY parent table of at most NMAX nodes
+# Second registration of `_traverse_dfs` (allowed: obligations of equal name are merged).  The table, the start node and which
+# callbacks are given are concrete, the callbacks stay arbitrary (fresh uninterpreted results, arbitrary truthiness); no loop
+# contract: the three loops simply execute.  The postconditions are the same clauses of the property, evaluated over the LOG OF THE
+# CALLBACK CALLS ACTUALLY MADE, so they do not rest on any invariant: a change of a loop body that the symbolic-size proof can only
+# report as "invariant no longer provable" (internal obligation, exit 2) shows here as a counter-model of a postcondition.
+NMAX = 4
+
+
+def parent_tables(nmax=NMAX):
+    """every parent table with node 0 as the root, ids = positions, any numbering (not only parent-first), 1..nmax nodes"""
+    import itertools
+
+    out = []
+    for n in range(1, nmax + 1):
+        for rest in itertools.product(range(n), repeat=n - 1):
+            pid = (-1,) + rest
+            ok = True
+            for x in range(1, n):
+                seen, y = set(), x
+                while y != 0 and y not in seen:
+                    seen.add(y)
+                    y = pid[y]
+                ok = ok and y == 0
+            if ok:
+                out.append(pid)
+    return out
+
+
+class Log:
+    """ghost call log of one run on a concrete table: events (kind, node, argument, returned value, list snapshot, list uid) in call order"""
+
+    def __init__(self, pid, root):
+        self.pid, self.root, self.n, self.events = tuple(pid), root, len(pid), []
+        self.kids = {x: [c for c in range(self.n) if pid[c] == x] for x in range(self.n)}  # children in table order
+        sub, todo = set(), [root]
+        while todo:  # the subtree of the start node: least set containing it and closed under children
+            x = todo.pop()
+            if x not in sub:
+                sub.add(x)
+                todo.extend(self.kids[x])
+        self.sub = sub
+
+    def calls(self, kind, x=None):
+        return [(t, e) for t, e in enumerate(self.events) if e[0] == kind and (x is None or (isinstance(e[1], int) and e[1] == x))]
+
+
+def _node(x):
+    try:
+        import numpy as _np
+
+        return int(x) if isinstance(x, (int, _np.integer)) and not isinstance(x, bool) else x
+    except Exception:
+        return x
+
+
+def _same_value(a, b):
+    """z3 Bool / bool: the two callback values are the same object (None = the null reference)"""
+    try:
+        return to_z3(a, "oref") == to_z3(b, "oref")
+    except TypeError:
+        return a is b
+
+
+def fixed_setup(pid, root, enter_given, leave_given):
+    def f(S):
+        from pyvc.values import NArr
+
+        n = len(pid)
+        log = Log(pid, root)
+
+        def enter_model(E, args, kwargs):
+            v = fresh("oref", "entv")
+            log.events.append(("enter", _node(args[0]), args[1] if len(args) > 1 else kwargs, v, None, None))
+            return v
+
+        def leave_model(E, args, kwargs):
+            ch = args[1] if len(args) > 1 else None
+            v = fresh("oref", "lefv")
+            items = list(ch.items) if isinstance(ch, PList) and ch.items is not None else None
+            log.events.append(("leave", _node(args[0]), ch, v, items, getattr(ch, "uid", None)))
+            return v
+
+        ids, pids = NArr((n,), list(range(n)), "int"), NArr((n,), list(pid), "int")
+        ids.frozen = pids.frozen = True
+        return dict(topology=(ids, pids), root=root, enter=Callback("enter", enter_model) if enter_given else None,
+                    leave=Callback("leave", leave_model) if leave_given else None, F=log)
+
+    return f
+
+
+def fixed_post(which):
+    def f(E, v, o):
+        if "F" not in v:
+            return True
+        L = v["F"]
+        zand = lambda xs: z3.And(*[x if not isinstance(x, bool) else z3.BoolVal(x) for x in xs]) if xs else True
+        once = lambda kind: all(len(L.calls(kind, x)) == (1 if x in L.sub else 0) for x in range(L.n)) and len(L.calls(kind)) == len(L.sub)
+        if which.startswith("enter") and v["enter"] is None:
+            return True
+        if which.startswith("leave") and v["leave"] is None:
+            return True
+        if which == "enter-exactly-once-per-subtree-node-and-never-outside":
+            return once("enter")
+        if which == "leave-exactly-once-per-subtree-node-and-never-outside":
+            return once("leave")
+        if which == "enter-after-parent-with-the-parents-value":
+            if not once("enter"):
+                return False
+            out = []
+            for x in sorted(L.sub):
+                (t, e), = L.calls("enter", x)
+                if x == L.root:
+                    out.append(_same_value(e[2], None))
+                    continue
+                (tp, ep), = L.calls("enter", L.pid[x])
+                out += [tp < t, _same_value(e[2], ep[3])]
+            return zand(out)
+        if which == "leave-after-all-children-with-exactly-their-values":
+            if not once("leave") or (v["enter"] is not None and not once("enter")):
+                return False
+            out = []
+            for x in sorted(L.sub):
+                (t, e), = L.calls("leave", x)
+                if v["enter"] is not None:
+                    out.append(L.calls("enter", x)[0][0] < t)
+                kids = L.kids[x]
+                if e[4] is None or len(e[4]) != len(kids):
+                    return False
+                for j, c in enumerate(kids):  # the j-th value is the one the leave call of the j-th child (table order) returned, made earlier
+                    (tc, ec), = L.calls("leave", c)
+                    out += [tc < t, _same_value(e[4][j], ec[3])]
+            return zand(out)
+        if which == "leave-receives-a-list-of-its-own-at-every-call":
+            uids = [e[5] for _, e in L.calls("leave")]
+            return all(u is not None and u not in E.entry_uids for u in uids) and len(set(uids)) == len(uids)
+        if which == "returns-the-start-nodes-value":
+            if v["leave"] is None:
+                return v["result"] is None
+            hits = L.calls("leave", L.root)
+            return len(hits) == 1 and _same_value(v["result"], hits[0][1][3])
+        raise KeyError(which)
+
+    return f
+
+
+Truthy = z3.Function("Truthy", I, B)  # bool(v) of an arbitrary object v handed back by a callback (None is false, nothing else is known)
+
+
+def truth_of_callback_values(E, v):
+    """`if cur:` on a value a callback returned: the kind `oref` alone does not decide it (0, '', [] and False are not None)"""
+    if isinstance(v, Sym) and v.kind == "oref":
+        return E.sbool(z3.And(v.z != 0, Truthy(v.z)))
+    return NotImplemented
+
+
+def register_fixed(R):
+    variants = {}
+    for pid in parent_tables():
+        for root in range(len(pid)):
+            for nm, (e, l) in (("enter+leave", (True, True)), ("enter-only", (True, False)), ("leave-only", (False, True))):
+                variants[f"table {list(pid)} start {root} {nm}"] = fixed_setup(pid, root, e, l)
+    posts = ["enter-exactly-once-per-subtree-node-and-never-outside", "leave-exactly-once-per-subtree-node-and-never-outside",
+             "enter-after-parent-with-the-parents-value", "leave-after-all-children-with-exactly-their-values",
+             "leave-receives-a-list-of-its-own-at-every-call", "returns-the-start-nodes-value"]
+    R.add(f"{BASE}:_traverse_dfs", prop="C04", variants=variants, ensures=[(nm, fixed_post(nm)) for nm in posts],
+          options=dict(truth_hook=truth_of_callback_values),
+          notes=f"every parent table of at most {NMAX} nodes x every start node x which callbacks are given; callbacks arbitrary; loops executed, not cut")
 
 
 # =========================================================================== wrappers: traverse, Tree.traverse, Tree.Node.traverse
@@ -593,6 +763,7 @@ _reg0 = register
 
 def register(R):  # noqa: F811
     _reg0(R)
+    register_fixed(R)
     register_wrappers(R)
 
 
